@@ -756,7 +756,7 @@ def build_cases(rng, tier):
         cases.append(mk_case(len(cases), op, args, rng, extra=extra, **kw))
 
     quick = tier == "quick"
-    n = 280 if quick else 2500
+    n = 280 if quick else 4000
     for _ in range(n):
         add("atom_length", gen_atom_length(rng))
         add("atom_chars", gen_atom_text(rng, False))
